@@ -36,7 +36,7 @@ type c02Case struct {
 }
 
 var c02Setters = []string{"subject", "gen-header", "from-name", "to-name", "cc-name", "replyto-name", "message-id", "organization", "user-agent",
-	"attachment-name", "embed-name", "file-description", "part-description", "content-id", "mdn-name", "mdn-add-name"}
+	"attachment-name", "embed-name", "file-description", "part-description", "content-id", "mdn-name", "mdn-add-name", "set-header-alias"}
 
 // c02Apply builds the message of the given shape and applies the setter(s). It returns the first setter error.
 func c02Build(shape int, b bool, sets [][2]interface{}, late bool, charset string) (*mail.Msg, error) {
@@ -82,6 +82,9 @@ func c02Build(shape int, b bool, sets [][2]interface{}, late bool, charset strin
 	}
 	if v, ok := val(1); ok {
 		m.SetGenHeader(mail.Header("X-Custom"), v)
+	}
+	if v, ok := val(16); ok {
+		m.SetHeader(mail.Header("X-Alias"), v) // the deprecated alias of SetGenHeader
 	}
 	if v, ok := val(2); ok {
 		note(m.FromFormat(v, "sender@snd.example"))
@@ -399,7 +402,7 @@ func c02ExecOne(r *vf.Run, k c02Case) []finding {
 	if normWS(string(k.Value)) == "" {
 		// an empty value means "not set": the setter's own field may be absent
 		own := map[string]string{"file-description": "content-description", "part-description": "content-description", "subject": "subject",
-			"gen-header": "x-custom", "organization": "organization", "content-id": "content-id"}[sname]
+			"gen-header": "x-custom", "organization": "organization", "content-id": "content-id", "set-header-alias": "x-alias"}[sname]
 		strip := func(secs []c02Section) {
 			for i := range secs {
 				var n []string
@@ -475,6 +478,9 @@ func c02ExecOne(r *vf.Run, k c02Case) []finding {
 	case "gen-header":
 		g, err := dec(he.First("X-Custom"))
 		chk("X-Custom", g, err, want)
+	case "set-header-alias":
+		g, err := dec(he.First("X-Alias"))
+		chk("X-Alias", g, err, want)
 	case "organization":
 		g, err := dec(he.First("Organization"))
 		chk("Organization", g, err, want)
@@ -625,7 +631,7 @@ func init() {
 	vf.Register(&vf.Check{
 		ID: "C02", Title: "no caller-supplied text can alter the header block",
 		Run: func(r *vf.Run) {
-			r.SetRule("16 text-accepting setters (subject, generic header, From/To/Cc/Reply-To and Disposition-Notification-To display names, message-id, organisation, user-agent, attachment and embed file names, file and part descriptions, content-id) × values {every byte 0..255 at start/middle/end of a carrier; all 2-grams (thorough: 3-grams) over 16 dangerous symbols CR LF NUL TAB SP \" \\ < > : ; = ? 0x80 0xFF ü; lengths 0,1,74..79,200,1000; classic injection payloads; values that as a whole look like one RFC 2047 encoded-word with every 2-gram of the symbols inside the wrapper} × header encoder {Q,B} × shape {single part, alternative, mixed+related} × message charset {UTF-8 (all), US-ASCII, ISO-8859-1, UTF-7}, alone, (2-grams) in pairs of setters, and — for the file and part attributes — applied to the existing File / Part objects after a first rendering (second rendering judged); oracle is differential: every header section must have exactly the field names of the same message built with a benign value, bodies unchanged, and the value must decode back (RFC 2047, WSP-normalised; file names after the documented '_' replacement) unless the setter returned an error; distinct by case tuple")
+			r.SetRule("17 text-accepting setters (subject, generic header (SetGenHeader and its deprecated alias SetHeader), From/To/Cc/Reply-To and Disposition-Notification-To display names, message-id, organisation, user-agent, attachment and embed file names, file and part descriptions, content-id) × values {every byte 0..255 at start/middle/end of a carrier; all 2-grams (thorough: 3-grams) over 16 dangerous symbols CR LF NUL TAB SP \" \\ < > : ; = ? 0x80 0xFF ü; lengths 0,1,74..79,200,1000; classic injection payloads; values that as a whole look like one RFC 2047 encoded-word with every 2-gram of the symbols inside the wrapper} × header encoder {Q,B} × shape {single part, alternative, mixed+related} × message charset {UTF-8 (all), US-ASCII, ISO-8859-1, UTF-7}, alone, (2-grams) in pairs of setters, and — for the file and part attributes — applied to the existing File / Part objects after a first rendering (second rendering judged); oracle is differential: every header section must have exactly the field names of the same message built with a benign value, bodies unchanged, and the value must decode back (RFC 2047, WSP-normalised; file names after the documented '_' replacement) unless the setter returned an error; distinct by case tuple")
 			r.Assume("*Preformatted setters are raw by contract and excluded", "header names, content types and charsets are typed constants, not free text",
 				"message-id / content-id values are only compared when they are printable ASCII without blanks and angle brackets")
 			vals := c02Values(r.Thorough)
